@@ -52,6 +52,7 @@ def widen_c01(steps):
         if s["op"] == "write_exec_d" and not s.get("swap"):
             # "./p1" and "p1" are two names for one destination: which source ends up there must not depend on the process
             s["programs"] = [[p, p] for p in ("p1", "p2", "p3")] + [["./p1", "p2"], ["./p3", "p1"]]
+            s["swap"] = True        # (compared across processes only: C01's model has no opinion on aliased names)
     return steps
 
 
